@@ -1,4 +1,5 @@
 import RichModel.Model.Wrap
+import RichModel.Model.TextTabs
 import RichModel.Model.Style
 import RichModel.Gen.CellWidths
 import RichModel.Drv.Proto
@@ -216,7 +217,7 @@ def handlers : List (String × (List String → String)) := [
       let o ← decOverflow? o
       let ts ← decOptNat? ts
       let nw ← decOptBool? nw
-      if t.length < 0 then none else pure (ansTexts (wrap v cw alg t w j o ts nw))
+      if t.length < 0 then none else pure (ansTexts (wrap v cw alg t w j o (Text.effTab Text.tabAssertAsFound t ts) nw))
     | _ => "bad-args"),
   -- the same with real Style objects: first argument the table of atomic styles
   ("wrap_wrap_real", fun a => match a with
@@ -229,7 +230,7 @@ def handlers : List (String × (List String → String)) := [
       let o ← decOverflow? o
       let ts ← decOptNat? ts
       let nw ← decOptBool? nw
-      if t.length < 0 then none else pure (ansTextsReal tbl (wrap v cw (algReal tbl) t w j o ts nw))
+      if t.length < 0 then none else pure (ansTextsReal tbl (wrap v cw (algReal tbl) t w j o (Text.effTab Text.tabAssertAsFound t ts) nw))
     | _ => "bad-args")
 ]
 
